@@ -393,7 +393,38 @@ class ExtractedError(Exception):
     pass
 
 
-def produce(rng, cbs, reg):
+def use_types(mt_name, at_name, mfields, sfields, ofields, vals, extracted, cbs):
+    """correct use of a MessageType and an ActionType: a message, a succeeding action, a failing action whose exception
+    has a registered extractor, a traceback; everything goes to a fresh MemoryLogger installed as the default logger"""
+    import eliot
+    from eliot import MessageType, ActionType, MemoryLogger, write_traceback
+    from eliot.testing import swap_logger
+
+    MT = MessageType(mt_name, [real_field(f, cbs) for f in mfields], "")
+    AT = ActionType(at_name, [real_field(f, cbs) for f in sfields], [real_field(f, cbs) for f in ofields], "")
+    logger = MemoryLogger()
+    eliot.register_exception_extractor(ExtractedError, lambda e: dict(extracted))
+    prev = swap_logger(logger)
+    try:
+        MT.log(**vals[0])
+        with AT(**vals[1]) as act:
+            MT.log(**vals[0])
+            act.add_success_fields(**vals[2])
+        try:
+            with AT(**vals[1]):
+                raise ExtractedError("boom")
+        except ExtractedError:
+            pass
+        try:
+            raise ExtractedError("tb")
+        except ExtractedError:
+            write_traceback()
+    finally:
+        swap_logger(prev)
+    return logger, MT, AT
+
+
+def produce(rng, cbs, reg, idx=0):
     """Build real types from a generated definition, use them correctly, and return the captured
     (message, real serializer, spec) triples plus the type-level facts."""
     import eliot
@@ -422,31 +453,14 @@ def produce(rng, cbs, reg):
             break
     else:
         mfields, sfields, ofields, vals = [], [], [], [{}, {}, {}]
-    MT = MessageType(mt_name, [real_field(f, cbs) for f in mfields], "")
-    AT = ActionType(at_name, [real_field(f, cbs) for f in sfields], [real_field(f, cbs) for f in ofields], "")
     aspec = lambda which: {"action_type": at_name, "start": sfields, "success": ofields, "which": which}  # noqa
     mspec = {"message_type": mt_name, "fields": mfields}
-    logger = MemoryLogger()
-    eliot.register_exception_extractor(ExtractedError, lambda e: {"code": 5, "detail": "d"})
-    from eliot.testing import swap_logger
-
-    prev = swap_logger(logger)
-    try:
-        MT.log(**vals[0])
-        with AT(**vals[1]) as act:
-            MT.log(**vals[0])
-            act.add_success_fields(**vals[2])
-        try:
-            with AT(**vals[1]):
-                raise ExtractedError("boom")
-        except ExtractedError:
-            pass
-        try:
-            raise ExtractedError("tb")
-        except ExtractedError:
-            write_traceback()
-    finally:
-        swap_logger(prev)
+    # extractors as applications write them: extra fields, vars(e), and names that coincide with the end message's own
+    choices = [{"reason": 42, "code": 1}, {"code": 5, "detail": "d"}, {"exception": ["x"], "k": None},
+               {"action_status": "weird", "reason": None, "code": 2}, {"reason": {"errno": 2}, "filename": "f"},
+               {"traceback": 0, "message_type": "mine", "reason": 1.5}, {}]
+    extracted = choices[idx % len(choices)]   # every run has colliding and non-colliding ones
+    logger, MT, AT = use_types(mt_name, at_name, mfields, sfields, ofields, vals, extracted, cbs)
     specs = [mspec, aspec("start"), mspec, aspec("success"), aspec("start"), aspec("failure"), "traceback"]
     trip = list(zip([dict(m) for m in logger.messages], logger.serializers, specs))
     types = dict(real={
@@ -458,6 +472,9 @@ def produce(rng, cbs, reg):
         case=dict(kind="types", message_type=mt_name, fields=[field_json(f, reg) for f in mfields], action_type=at_name,
                   start=[field_json(f, reg) for f in sfields], success=[field_json(f, reg) for f in ofields]))
     ok = outcome(logger.validate)
+    types["produce_case"] = dict(kind="produce", message_type=mt_name, action_type=at_name, fields=types["case"]["fields"],
+                                 start=types["case"]["start"], success=types["case"]["success"], extracted=extracted,
+                                 vals=[{k: enc_val(v, reg) for k, v in d.items()} for d in vals])
     return trip, types, ok, len(logger._failed_validations)
 
 
@@ -723,17 +740,17 @@ def run(ctx):
     reg = Registry()
     cases, metas = [], []
     ndefs = ctx.budget(4, 300)
-    for _ in range(ndefs):
+    for idef in range(ndefs):
         cbs = Callbacks(reg)
         try:
-            trip, types, ok, failed = produce(rng, cbs, reg)
+            trip, types, ok, failed = produce(rng, cbs, reg, idef + ctx.seed)
         except Exception as e:  # noqa
             ctx.violation("correct use of generated declared types raised %s: %s" % (type(e).__name__, e), dict(kind="produce"), key=None)
             continue
         env = cbs.env_json()
         if ok != "ok" or failed:
             ctx.violation("messages produced by correct use of declared types do not validate: validate() -> %s, %d failed validations" % (ok, failed),
-                          dict(kind="produce", types=types["case"]), key=None)
+                          dict(types["produce_case"], env=env), key=None)
         cases.append(types["case"])
         metas.append(("types", types))
         all_msgs = []
@@ -950,6 +967,17 @@ def replay(ctx, obj):
         print(real, real2)
         if not (real["restored"] and real2["restored"]) and ("captured" in c["test"] or not has_swaps(c["test"])):
             ctx.violation("the default logger after a capture_logging test is not the one before it", c, key=None)
+    elif c.get("kind") == "produce" and "env" in c:
+        cbs, ser_of = rebuild(c, reg)
+        fl = lambda fs: [dict(f, value=dec_val(f["value"])) if f["t"] == "value" else dict(f) for f in fs]  # noqa
+        vals = [{k: dec_val(v) for k, v in d.items()} for d in c["vals"]]
+        logger, _, _ = use_types(c["message_type"], c["action_type"], fl(c["fields"]), fl(c["start"]), fl(c["success"]), vals, c["extracted"], cbs)
+        ok, failed = outcome(logger.validate), len(logger._failed_validations)
+        for m in logger.messages:
+            print({k: v for k, v in m.items() if k not in ("timestamp", "task_uuid")})
+        print("validate() ->", ok, "; failed validations recorded at write time:", failed)
+        if ok != "ok" or failed:
+            ctx.violation("messages produced by correct use of declared types do not validate: validate() -> %s, %d failed validations" % (ok, failed), c, key=None)
     elif c.get("kind") == "validate":
         cbs, ser_of = rebuild(c, reg)
         spec, serobj = ser_of(c["ser"])
